@@ -483,7 +483,7 @@ func (in *Interp) atomVsLit(a, b []Chunk) (*Term, []Chunk, []Chunk) {
 		if err != nil || strconv.FormatInt(v, 10) != pre {
 			t = ts.Bool(false)
 		} else {
-			t = ts.Eq(at.t, ts.BV(64, uint64(v)))
+			t = in.intCmp("=", at.t, ts.BV(64, uint64(v)))
 		}
 	case "fmtfloat":
 		f, err := strconv.ParseFloat(pre, 64)
@@ -509,7 +509,9 @@ func (in *Interp) atomEq(x, y *Atom) *Term {
 	ts := in.ts
 	if x.kind == y.kind {
 		switch x.kind {
-		case "fmtint", "fmtfloat", "fmtbool":
+		case "fmtint":
+			return in.intCmp("=", x.t, y.t)
+		case "fmtfloat", "fmtbool":
 			return ts.Eq(x.t, y.t)
 		}
 	}
@@ -523,6 +525,10 @@ func (in *Interp) atomEq(x, y *Atom) *Term {
 		integral := ts.Mk("fp.eq", SBool, f, ts.Mk("fp.roundToIntegral RTZ", SF64, f))
 		inRange := ts.And(ts.Mk("fp.lt", SBool, f, lim), ts.Mk("fp.geq", SBool, f, ts.F64(-9223372036854775808.0)))
 		negZero := ts.Eq(f, ts.F64(math.Copysign(0, -1)))
+		if src, ok := in.f2iSrc[a.id]; ok {
+			// a = int64(y): equal renderings iff f is that same integer as a double
+			return ts.And(integral, inRange, ts.Not(negZero), ts.Mk("fp.eq", SBool, f, src))
+		}
 		return ts.And(integral, inRange, ts.Not(negZero), ts.Eq(ts.Mk("(_ fp.to_sbv 64) RTZ", SBV(64), f), a))
 	}
 	if x.kind == "fmtbool" || y.kind == "fmtbool" {
